@@ -122,3 +122,41 @@ func NumberForms() []string {
 	}
 	return out
 }
+
+// RegexForms returns like_regex predicates over every pattern of length 0..3
+// and a seeded sample of longer ones over the regular-expression alphabet,
+// with and without flags: the parser must refuse exactly the patterns Go's
+// regexp refuses (property C04), so that execution never meets one.
+func RegexForms(seed int64, nLong int) []string {
+	alpha := []string{"a", "b", ".", "*", "+", "?", "|", "(", ")", "[", "]", "^", "$", `\\`, "-", "d", "{", "}", "1", ","}
+	quote := func(p string) string { return `"` + p + `"` }
+	var out []string
+	pats := []string{""}
+	level := []string{""}
+	for n := 1; n <= 3; n++ {
+		var next []string
+		for _, p := range level {
+			for _, c := range alpha {
+				next = append(next, p+c)
+			}
+		}
+		pats = append(pats, next...)
+		level = next
+	}
+	for i, p := range pats {
+		out = append(out, "$ like_regex "+quote(p))
+		if i%7 == 0 {
+			out = append(out, "$ like_regex "+quote(p)+` flag "i"`, "$ like_regex "+quote(p)+` flag "q"`, "$ like_regex "+quote(p)+` flag "sm"`)
+		}
+	}
+	r := rand.New(rand.NewSource(seed))
+	for i := 0; i < nLong; i++ {
+		n := 4 + r.Intn(5)
+		p := ""
+		for j := 0; j < n; j++ {
+			p += alpha[r.Intn(len(alpha))]
+		}
+		out = append(out, "$ like_regex "+quote(p))
+	}
+	return out
+}
